@@ -85,10 +85,10 @@ def sidx? (w : String) : Option Nat := if w = "0" then some 0 else if w = "1" th
 
 def binop (op : String) (xs : List Triple) (inA : Triple → Bool) (ys : List Triple) (inB : Triple → Bool) :
     Option Mem :=
-  if op = "add" then some (gUnion xs ys 1000)
-  else if op = "sub" then some (gDiff xs inB 1000)
-  else if op = "mul" then some (gInter inA ys 1000)
-  else if op = "xor" then some (gXor xs inA ys inB 1000)
+  if op = "add" then some (View.union ⟨xs, inA⟩ ⟨ys, inB⟩ 1000)
+  else if op = "sub" then some (View.diff ⟨xs, inA⟩ ⟨ys, inB⟩ 1000)
+  else if op = "mul" then some (View.inter ⟨xs, inA⟩ ⟨ys, inB⟩ 1000)
+  else if op = "xor" then some (View.xor ⟨xs, inA⟩ ⟨ys, inB⟩ 1000)
   else none
 
 /-- iteration of an operand graph that lives on some other store and holds the listed triples -/
